@@ -339,6 +339,22 @@ Qed.
 
 End Histories.
 
+(* ------------------------------------------------------------------ 5b. keyword arguments: defaults and dispatch *)
+(** every omitted argument takes ITS OWN default, whatever else was given; component mode ignores mcs_mol, mcs_mol ignores mcs *)
+Theorem resolve_defaults (auto : bool) :
+  ((forall g1 g2 chs ch, resolve auto (CFind g1 g2 {| fk_mcs := None; fk_mol := None |} chs ch) =
+                        if auto then MFindAuto g1 g2 false chs else MFind g1 g2 false) /\
+  (forall g1 g2 m chs ch, resolve auto (CFind g1 g2 {| fk_mcs := m; fk_mol := Some true |} chs ch) = MFindMol g1 g2 ch) /\
+  (forall g1 g2 b chs ch, resolve false (CFind g1 g2 {| fk_mcs := Some b; fk_mol := None |} chs ch) = MFind g1 g2 b) /\
+  (forall x ch, resolve auto (CRc x {| rk_side := None; rk_mcs := None; rk_mol := None; rk_component := None |} ch) = MRc x SOp true true) /\
+  (forall x sd m ml ch, resolve auto (CRc x {| rk_side := sd; rk_mcs := m; rk_mol := ml; rk_component := None |} ch) =
+                        MRc x (dflt SOp sd) (dflt true m) true) /\
+  (forall x sd m ch, resolve auto (CRc x {| rk_side := sd; rk_mcs := m; rk_mol := None; rk_component := Some false |} ch) =
+                     MRc x (dflt SOp sd) (dflt true m) false) /\
+  (forall x sd m ch, resolve auto (CRc x {| rk_side := sd; rk_mcs := m; rk_mol := Some true; rk_component := Some false |} ch) =
+                     MRcMol x (dflt SOp sd) ch))%type.
+Proof. repeat split; intros; destruct auto; reflexivity. Qed.
+
 (* ------------------------------------------------------------------ non-vacuity *)
 Module Example_state.
 Local Open Scope nat_scope.
